@@ -2509,6 +2509,8 @@ func TestVerifC13(t *testing.T) {
 	// Working directory forms and credentials (c13_env_test.go).
 	c13WorkingDirSection(t, rep, seeds)
 	c13CredentialsSection(t, rep)
+	// Log levels of the process (c13_loglevel_test.go).
+	c13LogLevelSection(t, rep, seeds)
 
 	// The run must have observed every kind of event it decides on.
 	need := map[string]int{
